@@ -237,46 +237,77 @@ def run(R):
             raise CheckError('UNRECOGNISED: %d sites of timeout.map(tokio::time::sleep) in GrpcTimeout::call' % len(maps))
         mbb, mt = maps[0]
         R.ok('C09.R4', 'sleep-from-duration', site(b, mbb), 'sleep = timeout.map(tokio::time::sleep)')
-        tl = mirlib.root_local(b, mt['args'][0])
-        eff = writers_of(b, tl)
-        rows = decision_rows(b, 0, eff)
+        # the value handed to sleep, by feasible path, against the 2x2 table (client header present?, server timeout set?)
+        meta = {}
+        prow = mirlib.path_rows(b, stop={mbb}, meta=meta)
+        terms = lambda: meta.get('__terms__', {})
+
+        def is_opt(k):
+            return k in meta and any(n_ == 'Some' for _, n_ in meta[k])
+        mentions_parse = lambda t_: term_contains(t_, lambda x: is_call(x, name='try_parse_grpc_timeout'))
+        mentions_server = lambda t_: mentions_field(t_, 'server_timeout')
+        has_some_proj = lambda t_: term_contains(t_, lambda x: x and x[0] == 'variant' and x[2] == 'Some')
+
+        def classify(v):
+            v = strip_refs(mirlib.simplify(v))
+            if v[0] == 'agg' and v[1].get('variant') == 'None':
+                return 'None'
+            if v[0] == 'agg' and v[1].get('variant') == 'Some':
+                x = strip_refs(v[2][0])
+                if is_call(x) and x[3] == 'min' and mentions_parse(x) and mentions_server(x):
+                    return 'min(h,s)'
+                if is_call(x):
+                    return 'call:%s' % x[3]
+                if mentions_parse(x) and not mentions_server(x):
+                    return 'h'
+                if mentions_server(x) and not mentions_parse(x):
+                    return 's'
+                return show(x)[:40]
+            if mentions_parse(v) and not mentions_server(v) and not has_some_proj(v):
+                return 'client-opt'
+            if mentions_server(v) and not mentions_parse(v) and not has_some_proj(v):
+                return 'server-opt'
+            return show(v)[:40]
         table = {}
-        for cons, bb in rows:
-            d = cons_dict(cons)
-            cl = [v for k, v in d.items() if k.startswith('discr(') and 'try_parse_grpc_timeout' in k]
-            sv = [v for k, v in d.items() if k.startswith('discr(') and 'server_timeout' in k]
-            if not cl or not sv or cl[0][0] != '==' or sv[0][0] != '==':
-                R.bad('C09.R4', 'row-shape', site(b, bb), 'unrecognised row %r' % (cons,), kind='UNRECOGNISED')
+        for cons, path in prow:
+            if path[-1] != mbb:
                 continue
-            w = block_writes(b, bb, tl)
-            val = None
-            if w and w[0][0] == 'variant':
-                if w[0][2] == 'None':
-                    val = 'None'
-                else:
-                    x = strip_refs(w[0][3][0])
-                    s = show(x)
-                    if is_call(x, pat='cmp::min') and 'try_parse_grpc_timeout' in s and 'server_timeout' in s:
-                        val = 'min(h,s)'
-                    elif is_call(x):
-                        val = 'call:' + (x[3] or '?')
-                    elif 'server_timeout' in s and 'try_parse' not in s:
-                        val = 's'
-                    elif 'try_parse_grpc_timeout' in s and 'server_timeout' not in s:
-                        val = 'h'
-                    else:
-                        val = s
-            table[(cl[0][1], sv[0][1])] = val
+            vw = cons_view(cons, meta)
+            cl = view_get(vw, lambda k: is_opt(k) and mentions_parse(terms().get(k)) and not mentions_server(terms().get(k)))
+            sv = view_get(vw, lambda k: is_opt(k) and mentions_server(terms().get(k)) and not mentions_parse(terms().get(k)))
+            val = classify(b.origin_on_path(mt['args'][0], path))
+            for c_ in ((0, 1) if cl is None else ((1,) if cl == 'Some' else (0,))):
+                for s_ in ((0, 1) if sv is None else ((1,) if sv == 'Some' else (0,))):
+                    eff_v = val
+                    if val == 'client-opt':
+                        eff_v = 'h' if c_ else 'None'
+                    elif val == 'server-opt':
+                        eff_v = 's' if s_ else 'None'
+                    table.setdefault((c_, s_), set()).add(eff_v)
         want = {(0, 0): 'None', (1, 0): 'h', (0, 1): 's', (1, 1): 'min(h,s)'}
         for k, v in want.items():
-            R.eq(table.get(k), v, 'C09.R4', 'min:%d-%d' % k, site(b), 'effective timeout for (client %s, server %s)' % ('Some' if k[0] else 'None', 'Some' if k[1] else 'None'))
-        ubb, ut = b.call1(name='unwrap_or_else')
-        R.check(is_call(b.origin(ut['args'][0]), name='try_parse_grpc_timeout'), 'C09.R4', 'parse-errors-ignored', site(b, ubb), 'try_parse_grpc_timeout(..).unwrap_or_else(..)')
-        cl0 = strip_refs(b.origin(ut['args'][1]))
-        if cl0[0] == 'agg' and 'def' in cl0[1]:
-            cb = tonic.body(cl0[1]['def'])
-            rets = [w for bb in writers_of(cb, 0) for w in block_writes(cb, bb, 0)]
-            R.check(all(w[0] == 'variant' and w[2] == 'None' for w in rets) and rets, 'C09.R4', 'parse-error->None', site(cb), 'fallback closure returns %r' % [w[:3] for w in rets])
+            R.eq(sorted(table.get(k, [])), [v], 'C09.R4', 'min:%d-%d' % k, site(b), 'effective timeout for (client %s, server %s)' % ('Some' if k[0] else 'None', 'Some' if k[1] else 'None'))
+        # header parse errors are ignored (-> no client timeout), never propagated or unwrapped
+        tp = b.calls(name='try_parse_grpc_timeout')
+        R.check(len(tp) == 1, 'C09.R4', 'parse-errors-ignored', site(b), 'try_parse_grpc_timeout sites: %d' % len(tp))
+        uw = b.calls(name='unwrap_or_else')
+        if uw and is_call(b.origin(uw[0][1]['args'][0]), name='try_parse_grpc_timeout'):
+            cl0 = strip_refs(b.origin(uw[0][1]['args'][1]))
+            if cl0[0] == 'agg' and 'def' in cl0[1]:
+                cb = tonic.body(cl0[1]['def'])
+                rets = [w for bb in writers_of(cb, 0) for w in block_writes(cb, bb, 0)]
+                R.check(all(w[0] == 'variant' and w[2] == 'None' for w in rets) and rets, 'C09.R4', 'parse-error->None', site(cb), 'fallback closure returns %r' % [w[:3] for w in rets])
+        else:
+            # matched: on the Err arm the client timeout is None
+            okn = False
+            for cons, path in prow:
+                vw = cons_view(cons, meta)
+                pe = view_get(vw, lambda k: k in meta and any(n_ == 'Err' for _, n_ in meta[k]) and mentions_parse(terms().get(k)) and is_call(strip_refs(terms()[k][1]), name='try_parse_grpc_timeout'))
+                if pe == 'Err' and path[-1] == mbb:
+                    cv = classify(b.origin_on_path(mt['args'][0], path))
+                    okn = cv in ('None', 's', 'server-opt')
+                    R.check(okn, 'C09.R4', 'parse-error->None', site(b, path[-1]), 'with an unparsable header the effective timeout is %s (no client timeout)' % cv)
+            R.check(okn, 'C09.R4', 'parse-error->None:exists', site(b), 'the Err arm of try_parse_grpc_timeout leads to a call without client timeout')
         ps = [p for p in mirlib.panic_sites(b)]
         R.check(not ps, 'C09.R4', 'no-panic', site(b), 'panic sites in GrpcTimeout::call: %r' % [(k, w) for _, k, w, _ in ps])
         ibb, it = b.call1(pat='Service::call')
